@@ -365,6 +365,10 @@ class Recorder:
                                               [d.id for _, d in tree.active_non_leaves], [[d.id for d in lv] for lv in tree.levels],
                                               int(tree.metaepoch_count), int(tree.n_evaluations)))
             a["best_leaf"] = guarded(lambda: (lambda b: (_key(b.genome), float(b.fitness)))(tree.best_leaf_individual))
+            if getattr(self, "visuals", False) and int(tree.metaepoch_count) in (2, 4, 5):
+                # the graphical reports (documented on DemeTree): a diagram of the deme tree and an animation of the run,
+                # rendered to a scratch file - looking at a tree this way must not change it either
+                a["visual"] = guarded(lambda: self._visual_reports(tree))
             a["demes"] = []
             for _, d in tree.all_demes:
                 a["demes"].append((d.id,
@@ -407,6 +411,22 @@ class Recorder:
             ev["rep"] = {"ok": 0, "levels": [], "lines": [], "mc": -1, "tev": -1, "ndemes": -1, "bestfit_ok": 0, "intree": 0,
                          "isbest": [], "bestzero": 0}
         self.emit(ev)
+
+    def _visual_reports(self, tree):
+        import matplotlib
+        matplotlib.use("Agg")
+        out = [tree.tree_diagram().source.count("->")]
+        fd, path = tempfile.mkstemp(suffix=".gif", dir=os.environ.get("VERIF_SCRATCH") or None)
+        os.close(fd)
+        try:
+            tree.animate(path)
+            out.append(int(os.path.getsize(path) > 0))
+        finally:
+            if os.path.exists(path):
+                os.unlink(path)
+            import matplotlib.pyplot as plt
+            plt.close("all")
+        return out
 
     def do_dump(self, tree) -> None:
         """C19: pickle_dump / pickle_load at this boundary; the loaded tree is run to its end under its own recorder copy"""
